@@ -136,12 +136,25 @@ class OrderClient(fakezk.Client):
 
 # -- scratch ------------------------------------------------------------------
 _SCRATCH = {'dir': None, 'saved': None}
+RUN_ROOT = {'dir': None}
+
+
+def run_root_begin():
+    """Run-private parent of every scratch directory (made before the
+    workers are forked, removed by the parent even if workers were killed)."""
+    base = '/dev/shm' if os.path.isdir('/dev/shm') and \
+        os.access('/dev/shm', os.W_OK) else None
+    RUN_ROOT['dir'] = tempfile.mkdtemp(prefix='verif-c18-', dir=base)
+
+
+def run_root_end():
+    if RUN_ROOT['dir']:
+        shutil.rmtree(RUN_ROOT['dir'], ignore_errors=True)
+    RUN_ROOT['dir'] = None
 
 
 def scratch_begin():
-    base = '/dev/shm' if os.path.isdir('/dev/shm') and \
-        os.access('/dev/shm', os.W_OK) else None
-    _SCRATCH['dir'] = tempfile.mkdtemp(prefix='verif-c18-', dir=base)
+    _SCRATCH['dir'] = tempfile.mkdtemp(prefix='w-', dir=RUN_ROOT['dir'])
     _SCRATCH['saved'] = tempfile.tempdir
     tempfile.tempdir = _SCRATCH['dir']
 
@@ -443,6 +456,15 @@ def check_archive(world, before, where, out, stats):
                     out.append(_v('unexpired-finished-record-archived', site,
                                   where, {'path': path, 'last_modified': lm,
                                           'now_minus_expiry': edge}))
+    if kind == 'finished' and before.live:
+        # the real retrieval path for finished records
+        listed = set(app_zk.list_traces(world.admin, 'proid.*'))
+        stats['list_traces_calls'] += 1
+        for path in sorted(before.live):
+            if _obj_of(kind, path) not in listed:
+                out.append(_v('finished-record-not-listed',
+                              'trace.app.zk.list_traces', where,
+                              {'path': path, 'listed': sorted(listed)}))
     # what was in a snapshot before is still in a snapshot
     have = set()
     for blob in snaps.values():
@@ -589,6 +611,9 @@ def _complete(world, step):
     return None
 
 
+LAST = {'log': []}
+
+
 def explore_step(base, kind, step, checker, out, stats):
     """Full run, then every cut + re-run.  `checker(world, where)` appends
     violations.  Returns the world after the full run."""
@@ -599,6 +624,8 @@ def explore_step(base, kind, step, checker, out, stats):
         out.append(err)
         return w
     n = w.writes
+    LAST['log'] = [[op, path] for sid, op, path, _o in w.tree.log
+                   if sid == ARCH_SID]
     stats['writes'] += n
     stats['uploads'] += w.uploads
     checker(w, 'end of %s' % (step[0],))
@@ -637,6 +664,7 @@ def run_case(case):
         check_archive(world, before, where, out, stats)
 
     end = explore_step(base, kind, step, chk, out, stats)
+    LAST['archive_log'] = LAST['log']
     if end.uploads:
         stats['cases_with_upload'] += 1
     gone = [p for p in before.live if p not in end.live(kind)]
